@@ -552,6 +552,7 @@ static double trans_app(const std::string& n, double a) {
     add_pc((x > zero) == (r > zero)); add_pc((x == zero) == (r == zero)); mono_axioms(n, ap, true); inverse_link("atan", r, ta); }
   else if (n == "cosh") { use_axiom("cosh: cosh(x)>=1, cosh(x)^2*(1-tanh(x)^2)=1, cosh(-x)=cosh(x)");
     add_pc(r >= one); double th = trans_app("tanh", a); z3::expr t = E(th); add_pc(r * r * (one - t * t) == one); }
+  else if (n == "lgamma") { use_axiom("lgamma: an arbitrary real-valued function (no property used)"); }
   else { std::string m = "transcendental '" + n + "' of a symbolic value has no REAL-mode model"; path_exit(3, m.c_str()); }
   return ap.h;
 }
